@@ -220,6 +220,7 @@ def drive(mod, configs: list[dict], counts: dict, rule: str, assumptions: list[s
         "context_switches": sum(s.get("switches", 0) for s in done),
         "switches_while_two_hold_temp_state": sum(s.get("overlap_switches", 0) for s in done),
         "listing_permutations_applied": sum(s.get("perms", 0) for s in done),
+        "async_exception_point_events": sum(s.get("point_events", 0) for s in done),
         "faults_fired_by_kind": dict(sorted(fired.items())),
         "fault_kinds_enabled_in_scenarios": dict(sorted(enabled.items())),
         "simulated_clock_span_s": span,
